@@ -35,7 +35,7 @@ def positionsOf (ps : List Posting) : List (Account × Commodity) := ps.map (fun
 /-- conservation for every account (the accrual account included: it ends with what the original
 transaction booked on it, i.e. zero if the original does not touch it) -/
 def conservedB (orig : List Posting) (gen : List Transaction) : Bool :=
-  (positionsOf orig ++ positionsOf (gen.flatMap (·.postings))).all
+  (positionsOf orig ++ positionsOf (gen.flatMap (·.postings))).eraseDups.all
     (fun ac => decide (bookedTxs ac.1 ac.2 gen = booked ac.1 ac.2 orig))
 
 /-- the expected dates: every income/expense posting gives one transaction per period of the accrual
